@@ -112,6 +112,13 @@ func dedupKeys(keys []string, vals []int) ([]string, []int) {
 	return ks, vs
 }
 
+func lenBig(op Op) int {
+	if op.Big {
+		return 25
+	}
+	return 0
+}
+
 // create builds a new map in the representation named by kind.
 func create(op Op) (*handle, string) {
 	keys, vals := dedupKeys(op.Keys, op.Vals)
@@ -151,7 +158,19 @@ func create(op Op) (*handle, string) {
 		h.m = value.NewMap(rm)
 	case "toMap":
 		tm := value.NewToMap[attrHolder]()
-		for _, k := range keys {
+		// attributes are registered as drawn: a name that is registered again overrides the
+		// earlier registration (the map still has that key once)
+		for i, k := range op.Keys {
+			v := op.Vals[i]
+			tm.Attr(k, func(a attrHolder) value.Value { return value.Int(v) })
+			h.model[k] = ref.Int(v)
+			for j, kk := range keys {
+				if kk == k {
+					vals[j] = v
+				}
+			}
+		}
+		for _, k := range keys[len(keys)-lenBig(op):] {
 			k := k
 			tm.Attr(k, func(a attrHolder) value.Value { return value.Int(a.vals[k]) })
 		}
